@@ -5,7 +5,7 @@ was (provider mappings, annotation attributes).
  A|alias|cls,opt,shape            one shared annotation object (opt = its constructor flag, normally 0)
  V|pid|fresh/long/bad/badfalsy/badstr/falsy|scope   a provider object (fresh dict per call / one long-lived dict / not a provider: an object, a falsy object, a string other than "self" / a falsy provider)
  S|pid|scope                      change what the provider returns
- D|fid|pid,-,self:pid,selfraw|name=alias:opt;name=(alias:opt+alias:opt)|ret|nested
+ D|fid|pid,-,self:pid,selfraw|name=alias:opt;name=(alias:opt+alias:opt)|ret|nested   (nested: fid | - | set:pid=k:3,n:4 = the body updates provider pid)
  I|newfid|fid|pid                 the method `fid` (declared with self:...) through another instance whose mapping is provider pid's
  C|fid|names;..|values;..|retvalue
 """
@@ -95,6 +95,9 @@ def op_hist(*steps: str) -> str:
     ann_objs: dict = {}
     ann_snap: dict = {}
     body_of: dict = {}
+    body_sets: dict = {}
+    ns["BODY_SETS"] = body_sets
+    ns["BODY_RAN"] = []
     for st in steps:
         f = st.split("|")
         try:
@@ -134,7 +137,13 @@ def op_hist(*steps: str) -> str:
                 rets = "" if ret == "-" else f" -> {_hints_src(ns, ret)}"
                 names = [n for n, _ in ps]
                 body = f"    EVENTS.append(('body', '{fid}'))\n"
-                if nested != "-":
+                if nested.startswith("set:"):
+                    # the body changes (in place, for a long-lived dict) what provider `p` returns, while the call is running
+                    sp, sscope = nested[4:].split("=", 1)
+                    body_sets[fid] = (sp, parse_scope(sscope.replace(",", ";")))
+                    body += f"    PROV_{sp}.set(BODY_SETS['{fid}'][1])\n    BODY_RAN.append('{fid}')\n"
+                elif nested != "-":
+                    body_sets.pop(fid, None)
                     body += f"    DEPTH[0] += 1\n    try:\n        if DEPTH[0] < 4:\n            F_{nested}({', '.join(names)})\n    finally:\n        DEPTH[0] -= 1\n"
                 body += "    if RAISE[0]:\n        raise BodyError()\n    return RET[0]\n"
                 if pid.startswith("self:"):
@@ -171,6 +180,7 @@ def op_hist(*steps: str) -> str:
                 ns["RAISE"][0] = ret == "!"
                 ns["RET"][0] = None if ret in ("!", "-") else parse_hvalue(ret)
                 del EVENTS[:]
+                del ns["BODY_RAN"][:]
                 try:
                     out = F(**kw)
                     end = "ok" if out is ns["RET"][0] else "ok-different-object"
@@ -178,6 +188,8 @@ def op_hist(*steps: str) -> str:
                     end = "bodyraised"
                 except Exception as e:  # noqa: BLE001
                     end = show_report(e)
+                for ran in ns["BODY_RAN"]:
+                    prov_expected[body_sets[ran][0]] = dict(body_sets[ran][1])   # (the body's own update of the provider is expected)
                 calls = sum(1 for e in EVENTS if e == ("body", body_of.get(fid, fid)))
                 # outermost activation only (a recursive nested call re-enters the same body)
                 if calls > 1:
